@@ -23,3 +23,22 @@ spec fn is_member_disc(d: SDJWTDisclosure, k: Seq<char>) -> bool {
 spec fn is_elem_disc(d: SDJWTDisclosure) -> bool {
     d.hash@ == disc_digest(d.raw_b64@) && dj(d).len() == 2 && salt_j(dj(d)[0])
 }
+// a disclosure as SDJWTDisclosure::new makes it: its digest is the digest of its own text, which decodes to a JSON array
+spec fn disc_wf(d: SDJWTDisclosure) -> bool { d.hash@ == disc_digest(d.raw_b64@) && disc_json(d.raw_b64@) matches Some(J::Arr(_)) }
+spec fn all_wf_from(ds: Seq<SDJWTDisclosure>, n: int) -> bool { forall|i: int| n <= i < ds.len() ==> disc_wf(#[trigger] ds[i]) }
+proof fn lemma_all_wf_step(ds0: Seq<SDJWTDisclosure>, ds1: Seq<SDJWTDisclosure>, n0: int)
+    requires all_wf_from(ds0, n0), 0 <= n0 <= ds0.len() <= ds1.len(), ds1.take(ds0.len() as int) == ds0, all_wf_from(ds1, ds0.len() as int)
+    ensures all_wf_from(ds1, n0)
+{
+    assert forall|i: int| n0 <= i < ds1.len() implies disc_wf(#[trigger] ds1[i]) by {
+        if i < ds0.len() { assert(ds1.take(ds0.len() as int)[i] == ds1[i]); assert(disc_wf(ds0[i])); }
+    }
+}
+proof fn lemma_all_wf_push(ds: Seq<SDJWTDisclosure>, d: SDJWTDisclosure, n0: int)
+    requires all_wf_from(ds, n0), disc_wf(d)
+    ensures all_wf_from(ds.push(d), n0)
+{
+    assert forall|i: int| n0 <= i < ds.push(d).len() implies disc_wf(#[trigger] ds.push(d)[i]) by {
+        if i < ds.len() { assert(ds.push(d)[i] == ds[i]); }
+    }
+}
